@@ -4,12 +4,16 @@ package main
 
 import (
 	"bytes"
+	"context"
 	"encoding/json"
 	"fmt"
 	"sort"
 	"strings"
+	"time"
 
 	"fortio.org/terminal"
+	"grol.io/grol/eval"
+	"grol.io/grol/object"
 	"grol.io/grol/repl"
 	"grol.io/grol/trie"
 )
@@ -132,8 +136,117 @@ func trieObserveAC(ac *repl.AutoComplete, set map[string]bool, universe []string
 				return fmt.Sprintf("completion(%q) offered %q with no defined word", p, nl)
 			}
 		}
+		// the same text typed after indentation: the index holds no word starting with a blank (none of the universes has
+		// one), so nothing may be offered, and whatever is returned has to extend what was typed
+		for _, ind := range []string{" ", "\t", "    "} {
+			line := ind + p
+			anyBlank := false
+			for w := range set {
+				if strings.HasPrefix(w, line) {
+					anyBlank = true
+				}
+			}
+			if nl, _, ok2, _ := completionLine(ac, line); ok2 && (!anyBlank || !strings.HasPrefix(nl, line)) {
+				return fmt.Sprintf("completion(%q) (indented) returned %q: not an extension of what was typed to a defined word", line, nl)
+			}
+		}
 	}
 	return ""
+}
+
+// c20EvalFed: the index as the REPL feeds it - the evaluator records every top-level name it binds ("name", and "name(" for a
+// function or "name " otherwise). After each input of a session the words of the index, minus what it held after registration,
+// are exactly the words derived from the globals ever defined: parameters, locals, macro parameters and loop variables of
+// functions never get in, and tab on their prefixes offers nothing.
+func c20EvalFed(c *Ctx) {
+	sessions := [][]string{
+		{"zalpha = 1", "zbeta = func(zp1, zp2) {zloc = zp1; zloc}", "zbeta(1, 2)", "func zgamma(zq) {for zi = 2 {zq}}", "zgamma(1)",
+			"zmac = macro(zcond, zbody) {quote(if unquote(zcond) {unquote(zbody)})}", "zmac(true, 1)", "zmac(zalpha == 1, zbeta(1, 2))", "ZCONST = [1]", "del(zalpha)", "zalpha = 2",
+			"zd = {\"zkey\": 1}", "zl = zw => zw + 1", "zl(1)", "for ztop = 2 {ztwo = ztop}", "zf2 = func() {zm2 = macro(zx) {quote(unquote(zx))}; zm2(1)}", "zf2()"},
+		{"m1 = macro(ma) {quote(unquote(ma) + 1)}", "m1(1)", "func ff(fa, fb) {m1(fa)}", "ff(1, 2)", "m1 = macro(mb, mc) {quote(unquote(mb))}", "m1(1, 2)", "eval(\"ev1 = 5\")", "unjson(\"[1]\")"},
+	}
+	for si, sess := range sessions {
+		n, bad := c20EvalFedSession(c, si, sess)
+		if bad != "" {
+			c.Fail("completion-index-not-the-defined-names", bad, map[string]any{"check": "evalfed", "session": sess[:n+1]})
+		}
+	}
+}
+
+// c20EvalFedSession runs one session and returns the index of the first input after which the index is wrong ("" = fine).
+func c20EvalFedSession(c *Ctx, si int, sess []string) (int, string) {
+	s := eval.NewState()
+	var out bytes.Buffer
+	s.Out, s.LogOut = &out, &out
+	tr := trie.NewTrie()
+	s.RegisterTrie(tr)
+	_, base := tr.PrefixAll("")
+	baseSet := map[string]bool{}
+	for _, w := range base {
+		baseSet[w] = true
+	}
+	ac := &repl.AutoComplete{Trie: tr}
+	ever := map[string]string{} // word recorded -> global name
+	for i, in := range sess {
+		_, _, _, _ = repl.EvalOne(context.Background(), s, in, &out, repl.Options{All: true, ShowEval: true, NoColor: true})
+		g := c14DataGlobalsAndFuncs(s)
+		for name, isFunc := range g {
+			if isFunc {
+				ever[name+"("] = name
+			} else {
+				ever[name+" "] = name
+			}
+			ever[name] = name
+		}
+		_, words := tr.PrefixAll("")
+		if c != nil {
+			c.Case(fmt.Sprintf("evalfed:%d:%d:%s", si, i, in), true)
+		}
+		for _, w := range words {
+			if !baseSet[w] && ever[w] == "" {
+				return i, fmt.Sprintf("after %q the index holds %q, which is not a top-level name defined in the session", in, w)
+			}
+		}
+		for name, isFunc := range g {
+			suf := " "
+			if isFunc {
+				suf = "("
+			}
+			if !tr.Contains(name) || !tr.Contains(name+suf) {
+				return i, fmt.Sprintf("after %q the defined name %q (or %q) is missing from the index", in, name, name+suf)
+			}
+		}
+		for _, pfx := range []string{"zp", "zlo", "zq", "zi", "zco", "zbo", "zw", "zx", "zm2", "zke", "ma", "mb", "fa"} { // never global
+			if nl, _, ok, _ := completionLine(ac, pfx); ok {
+				return i, fmt.Sprintf("after %q, tab on %q completes to %q: never defined at top level", in, pfx, nl)
+			}
+		}
+		if c != nil {
+			c.AddTraces(1)
+		}
+	}
+	return 0, ""
+}
+
+// c14DataGlobalsAndFuncs: the session's own top-level names (name -> is a function), read from info.globals.
+func c14DataGlobalsAndFuncs(s *eval.State) map[string]bool {
+	out := map[string]bool{}
+	res, err, _ := c14Eval(s, "info.globals", 2*time.Second)
+	if err != nil {
+		return out
+	}
+	for _, k := range object.Elements(object.Value(res)) {
+		name, ok := k.(object.String)
+		if !ok {
+			continue
+		}
+		v, err, _ := c14Eval(s, name.Value, 2*time.Second)
+		if err != nil {
+			continue
+		}
+		out[name.Value] = object.Value(v).Type() == object.FUNC
+	}
+	return out
 }
 
 func trieCfg(alpha []int, maxLen, maxSet int, mark, emit bool, trace bool) string {
@@ -414,9 +527,19 @@ func checkC20(c *Ctx) {
 		}
 		c.Cov("sabotage_rejected", true)
 	}
+	c20EvalFed(c)
 }
 
 func replayC20(rp map[string]any) (bool, string) {
+	if rp["check"] == "evalfed" {
+		var sess []string
+		b, _ := json.Marshal(rp["session"])
+		_ = json.Unmarshal(b, &sess)
+		if _, bad := c20EvalFedSession(nil, 0, sess); bad != "" {
+			return false, bad
+		}
+		return true, ""
+	}
 	toWords := func(v any) [][]int {
 		var res [][]int
 		b, _ := json.Marshal(v)
